@@ -607,7 +607,7 @@ def _strategy_annotate(tier):
 # ---------------------------------------------------------------------------
 # part C: repair on charmm blocks
 
-AMINO = ['ALA', 'GLY', 'SER', 'VAL', 'PRO', 'ASP', 'LYS', 'PHE', 'THR', 'CYS', 'LEU', 'ASN', 'GLU', 'TYR']
+AMINO = ['ALA', 'GLY', 'SER', 'VAL', 'PRO', 'ASP', 'LYS', 'PHE', 'THR', 'CYS', 'LEU', 'ASN', 'GLU']
 SIDE_MODS = {'ASP': ['ASP-HD1', 'ASP-HD2'], 'GLU': ['GLU-HE1', 'GLU-HE2']}
 TER_MODS = {'nter': ['N-ter', 'NH2-ter'], 'cter': ['C-ter', 'COOH-ter']}
 
@@ -645,12 +645,27 @@ def patch_reference(ff, resname, mods):
     return names, edges
 
 
+def scrub_blocks(ff):
+    """The repair step writes 'mutation' / 'modification' into the shared force field blocks (harmless, nothing reads
+    them there); remove them so that a case never depends on the cases run before it."""
+    dirty = False
+    for name in AMINO:
+        block = ff.blocks[name]
+        for node in block.nodes:
+            for key in ('mutation', 'modification'):
+                if key in block.nodes[node]:
+                    del block.nodes[node][key]
+                    dirty = True
+    return dirty
+
+
 def build_peptide(case, ff):
     mol = Molecule(force_field=ff)
     atoms = {}
     edges = []
     key = 0
     prev_c = None
+    linked = []
     for rd in case['residues']:
         names, bedges = block_names_edges(ff, rd['resname'])
         local = {}
@@ -667,18 +682,26 @@ def build_peptide(case, ff):
             a, b = sorted(edge)
             if a in local and b in local:
                 edges.append((local[a], local[b]))
+        if rd.get('oxt'):
+            # the second carboxylate oxygen every C-terminal residue of a PDB file carries
+            atoms[key] = {'atomname': 'OXT', 'resname': rd['resname'], 'resid': rd['resid'], 'chain': case['chain'],
+                          'element': 'O', 'insertion_code': ''}
+            edges.append((local['C'], key))
+            key += 1
         if prev_c is not None:
             edges.append((prev_c, local['N']))
+            linked.append((prev_c, local['N']))
         prev_c = local['C']
     for node, attrs in atoms.items():
         mol.add_node(node, **attrs)
     mol.add_edges_from(edges)
-    return mol, atoms, edges
+    return mol, atoms, edges, linked
 
 
 def _run_repair(case):
     ff = charmm()
-    mol, atoms, edges = build_peptide(case, ff)
+    scrub_blocks(ff)
+    mol, atoms, edges, linked = build_peptide(case, ff)
     system = System(force_field=ff)
     system.molecules = [mol]
     residues = own_residues(atoms, edges)
@@ -732,11 +755,30 @@ def _run_repair(case):
         got_res.setdefault((attrs.get('chain'), attrs.get('resid')), []).append(node)
     if set(got_res) != set(reference):
         raise Violation('repair-residue-set', 'residues after repair %r, before %r' % (sorted(got_res), sorted(reference)))
+    # atoms that bond to a neighbouring residue belong to every amino acid block: they are never surplus
+    for a, b in linked:
+        for node in (a, b):
+            name = atoms[node]['atomname']
+            if node not in out.nodes or out.nodes[node].get('atomname') != name:
+                now = out.nodes[node].get('atomname') if node in out.nodes else 'removed'
+                raise Violation('repair-backbone-lost', 'backbone atom %s of residue %s%d, bonded to the neighbouring residue, is %s '
+                                'after repair (requests %r)' % (name, atoms[node]['resname'], atoms[node]['resid'], now,
+                                                                ['%s:%s' % (s['text'], s['target']) for _, s in requests]))
+        if not out.has_edge(a, b):
+            raise Violation('repair-backbone-lost', 'peptide bond %s%d-%s%d lost' % (
+                atoms[a]['resname'], atoms[a]['resid'], atoms[b]['resname'], atoms[b]['resid']))
     removed_any = False
     changed = False
     for ident, (final, (names, refedges)) in reference.items():
         res, muts, mods = expect[ident]
         nodes = got_res[ident]
+        if not muts and not mods:
+            # an unmarked residue keeps what it has beyond its block (left to the PTM machinery)
+            extras = [atoms[n]['atomname'] for n in res.atoms if atoms[n]['atomname'] not in names]
+            names = list(names) + extras
+            refedges = set(refedges) | {frozenset((atoms[a]['atomname'], atoms[b]['atomname'])) for a, b in edges
+                                         if a in res.atoms and b in res.atoms
+                                         and (atoms[a]['atomname'] in extras or atoms[b]['atomname'] in extras)}
         got_names = sorted(out.nodes[n].get('atomname') for n in nodes)
         resnames = {out.nodes[n].get('resname') for n in nodes}
         label = '%s%d (requested %s%s)' % (res.resname, res.resid, final, ''.join('+' + m for m in mods))
@@ -764,13 +806,6 @@ def _run_repair(case):
             present_before = {atoms[n]['atomname'] for n in res.atoms}
             if present_before - set(names):
                 removed_any = True
-    # peptide bonds survive
-    idents = [(case['chain'], rd['resid']) for rd in case['residues']]
-    for a, b in zip(idents[:-1], idents[1:]):
-        ca = [n for n in got_res[a] if out.nodes[n]['atomname'] == 'C'][0]
-        nb = [n for n in got_res[b] if out.nodes[n]['atomname'] == 'N'][0]
-        if not out.has_edge(ca, nb):
-            raise Violation('repair-backbone-bond', 'peptide bond between %r and %r lost' % (a, b))
     if changed:
         classes.append('mutation-to-other-residue')
     if removed_any:
@@ -785,6 +820,13 @@ def _run_repair(case):
         classes.append('with-hydrogens')
     if not any(muts or mods for _, muts, mods in expect.values()):
         classes.append('nothing-hit')
+    if scrub_blocks(ff):
+        classes.append('observation:force-field-block-annotated-in-place')
+    if any(rd.get('oxt') for rd in case['residues']):
+        classes.append('input-has-OXT')
+        last = expect[(case['chain'], case['residues'][-1]['resid'])]
+        if last[1]:
+            classes.append('C-terminal-residue-with-OXT-mutated')
     nontrivial = removed_any and (any(mods for _, _, mods in expect.values()) or len(requests) >= 2)
     return Outcome(classes, nontrivial)
 
@@ -845,6 +887,11 @@ def _repair_case(draw):
         if cands:
             r = draw(st.sampled_from(cands))
             modifications.append(spec_for(r, 'ASP-HD2'))
+    residues[-1]['oxt'] = draw(st.sampled_from([False, True, True]))
+    if not mutations and not modifications:
+        i = draw(st.integers(0, nres - 1))
+        mutations.append(spec_for(residues[i], draw(st.sampled_from(AMINO))))
+        residues[i]['strip_h'] = True
     return {'residues': residues, 'chain': chain,
             'mutations': mutations, 'modifications': modifications}
 
@@ -867,6 +914,14 @@ MATCHERS = {'bucket': match_bucket}
 PARTS = [
     Part('spec-roundtrip', _run_roundtrip, strategy=_strategy_roundtrip, examples={'quick': 4000, 'thorough': 100000},
          floors={'hash-required': 0.1, 'digit-name-without-resid': 0.03, 'terminus-keyword': 0.05, 'chain': 0.2, 'no-resname': 0.05}),
-    Part('annotate', _run_annotate, strategy=_strategy_annotate, examples={'quick': 4000, 'thorough': 100000}),
-    Part('repair', _run_repair, strategy=_strategy_repair, examples={'quick': 80, 'thorough': 2000}),
+    # the floors of the other two parts hold on the unchanged tree too, where the cases that run into the known
+    # findings are dropped from the statistics
+    Part('annotate', _run_annotate, strategy=_strategy_annotate, examples={'quick': 4000, 'thorough': 100000},
+         floors={'branched': 0.04, 'digit-name': 0.1, 'multi-molecule': 0.08, 'terminus-request-hit': 0.02,
+                 'unmatched-request': 0.04, 'same-chain-resid-in-two-molecules': 0.03, 'insertion-code': 0.1,
+                 'terminus-differs-from-lowest-resid-rule': 0.12, 'nameerror': 0.03},
+         shrink_budget={'quick': 150, 'thorough': 1500}),
+    Part('repair', _run_repair, strategy=_strategy_repair, examples={'quick': 80, 'thorough': 2000},
+         floors={'mutation-to-other-residue': 0.15, 'modification-applied': 0.1, 'old-atoms-removed': 0.1},
+         shrink_budget={'quick': 60, 'thorough': 300}),
 ]
